@@ -61,6 +61,7 @@ type stakeMonitor struct {
 	sawEscrow                         bool
 	returnedEntries                   int64 // entries put back so far (each may leave one smallest unit in the pool)
 	prevRecs                          map[string]int
+	knownNegative                     int
 	prev                              poolState
 }
 
@@ -186,7 +187,17 @@ func (m *stakeMonitor) After(c *Chain, w *World, br *BlockResult, outs []TxOutco
 		for _, o := range da.TokenOrigins {
 			sum = sum.Add(o.Amount)
 			if o.Amount.IsNegative() && v == nil {
-				v = pbt.Violf("C05/"+kind+"-negative-origin/"+tags, "block %d: %s record %x has a negative per-backer amount %s", br.Height, kind, key, o.Amount)
+				sig := "C05/" + kind + "-negative-origin/" + tags
+				if kind == "escrow" && o.Amount.Abs().LTE(math.NewInt(int64(len(da.TokenOrigins)))) {
+					// at most one unit per entry below zero: the remainder that EscrowReporterStake books on the last backer
+					// after every share was computed against power*10^6 instead of the recorded stake (finding F-C11-1)
+					sig = "C05/escrow-negative-origin/rounding-remainder-on-last-backer"
+					if pbt.IsKnown("C05", sig) {
+						m.knownNegative++
+						continue
+					}
+				}
+				v = pbt.Violf(sig, "block %d: %s record %x has a negative per-backer amount %s", br.Height, kind, key, o.Amount)
 			}
 		}
 		if !sum.Equal(da.Total) && v == nil {
